@@ -1,6 +1,7 @@
 package props
 
 import (
+	"strings"
 	"encoding/json"
 	"fmt"
 	"sort"
@@ -78,6 +79,62 @@ func c10Eval(c c10Case) (ok bool, sig, detail string) {
 			engine.Outcome(printLoc(f.Loc))
 			if !dok || !obs.Equal(d0) {
 				return false, "not-restored", fmt.Sprintf("%s at i=%d n=%d: %s came back as %s denoting %s, want %s", c.Op, c.I, c.N, loc, printLoc(f.Loc), obs, d0)
+			}
+		}
+		return true, "", ""
+	case "twin":
+		// several features with the same key and the same qualifiers: insert;delete (I<100) or embed;delete (I>=100) must give
+		// back the same table - the features stay apart whatever their partial markers and however they abut
+		res := plainResidues(L)
+		i, embed := c.I, false
+		if i >= 100 {
+			i, embed = i-100, true
+		}
+		ff := make(gts.FeatureSlice, len(locs))
+		for k, l := range locs {
+			ff[k] = gts.Feature{Key: "CDS", Loc: l, Props: gts.Props{{"gene", "same"}, {"note", "twin"}}}
+		}
+		table := func(t gts.FeatureSlice) string {
+			var ss []string
+			for _, f := range t {
+				ss = append(ss, encFeature(f))
+			}
+			sort.Strings(ss)
+			return strings.Join(ss, " ")
+		}
+		want := table(ff)
+		var out gts.Sequence
+		if p, msg := engine.Safely(func() {
+			host := gts.New(nil, append(gts.FeatureSlice(nil), ff...), cloneBytes(res))
+			guest := mkSeq(guestSeq(c.N), nil, "g")
+			var mid gts.Sequence
+			if embed {
+				mid = gts.Embed(host, i, guest)
+			} else {
+				mid = gts.Insert(host, i, guest)
+			}
+			out = gts.Delete(mid, i, c.N)
+		}); p {
+			return false, "panic", "panic: " + msg
+		}
+		if got := table(out.Features()); got != want {
+			// the results may print a location differently as long as it denotes the same residues with the same markers
+			same := len(out.Features()) == len(ff)
+			if same {
+				var a, b []string
+				for _, f := range ff {
+					a = append(a, denOf(f.Loc).String())
+				}
+				for _, f := range out.Features() {
+					d, _ := refmodel.Den(f.Loc)
+					b = append(b, d.String())
+				}
+				sort.Strings(a)
+				sort.Strings(b)
+				same = strings.Join(a, "|") == strings.Join(b, "|")
+			}
+			if !same {
+				return false, "twin-features-changed", fmt.Sprintf("features with equal key and qualifiers [%s], guest of %d at %d (embed=%v) then deleted: table is now [%s]", want, c.N, i, embed, got)
 			}
 		}
 		return true, "", ""
@@ -368,6 +425,27 @@ func init() {
 					complete = false
 					break
 				}
+			}
+			// features with the same key and qualifiers: every ordered pair over 24 (partial) ranges on six residues x every index
+			if complete {
+				var menu []gts.Location
+				for _, se := range [][2]int{{0, 3}, {3, 6}, {0, 2}, {2, 4}, {4, 6}, {3, 4}} {
+					for _, pt := range []gts.Partial{gts.Complete, gts.Partial5, gts.Partial3, gts.PartialBoth} {
+						menu = append(menu, gts.Ranged{Start: se[0], End: se[1], Partial: pt})
+					}
+				}
+				enc := encodeAll(menu)
+				n := len(enc)
+				done := r.ParallelFor(n*n, func(idx int) {
+					t := []string{enc[idx/n], enc[idx%n]}
+					for i := 0; i <= 6; i++ {
+						for g := 1; g <= 2; g++ {
+							eval(c10Case{Op: "twin", L: 6, Locs: t, I: i, N: g}, true)
+							eval(c10Case{Op: "twin", L: 6, Locs: t, I: 100 + i, N: g}, true)
+						}
+					}
+				})
+				complete = complete && done
 			}
 			// table dimension: every ordered triple of features over a ten-location menu: insert;delete and embed;delete at every index
 			if complete {
